@@ -31,7 +31,8 @@ pub fn run(outdir: &Path, tier: &str, seed: u64, shards: usize, replay: Option<S
         vec![serde_json::from_value(v["case"]["program"].clone()).unwrap()]
     } else {
         let mut ps = crate::c01dir::directed();
-        let extra = crate::c01dir::snake_case_types();
+        let mut extra = crate::c01dir::snake_case_types();
+        extra.extend(crate::c01dir::explicit_builtin_scalars().into_iter().take(1));
         // the random programs are in addition to the directed ones (quick: 18, thorough: 146)
         let nprog = ps.len() + extra.len() + nprog - 14;
         ps.extend(extra);
